@@ -92,6 +92,16 @@ def main():
                 print("   ", first[:400])
             results.append({"mutant": m["name"], "suite_passes": suite, "caught": caught, "first": first[:1000]})
     os.makedirs(os.path.join(VERIF, "evidence"), exist_ok=True)
+    evp = os.path.join(VERIF, "evidence", a.prop + ".mutants.json")
+    if a.skip_suite and os.path.exists(evp):
+        # keep what an earlier full run found out about the repository's own suite
+        old = {r.get("mutant"): r.get("suite_passes") for r in json.load(open(evp))}
+        for r in results:
+            if r.get("suite_passes") is None:
+                r["suite_passes"] = old.get(r.get("mutant"))
+    if a.only and os.path.exists(evp):
+        keep = [r for r in json.load(open(evp)) if r.get("mutant") not in {x.get("mutant") for x in results}]
+        results = keep + results
     if a.benign:
         sys.exit(0 if all(r["silent"] for r in results) else 1)
     json.dump(results, open(os.path.join(VERIF, "evidence", a.prop + ".mutants.json"), "w"), indent=1)
